@@ -33,6 +33,10 @@ def context_var(chk):
     var = None
     for r in rets:
         v = r.value
+        if isinstance(v, ast.Name):
+            vals = assigned_values(ca, v.id)
+            if len(vals) == 1 and vals[0] is not None and len(stores_to_name(ca, v.id)) == 1:
+                v = vals[0]
         if not (isinstance(v, ast.Call) and isinstance(v.func, ast.Attribute) and v.func.attr == "get"):
             return None, ca, "current_action returns %s, not <ContextVar>.get(...)" % unparse(v)
         ref = ctx.p.resolve_expr_static(ca.module, ca, v.func.value)
